@@ -16,6 +16,20 @@ std::uint64_t vfh_num_cases(bool thorough);
 void vfh_run_case(std::uint64_t idx, vf::Rng& rng);
 void vfh_selftest();
 
+#if defined(__SANITIZE_ADDRESS__)
+#define VF_HAS_ASAN 1
+#elif defined(__has_feature)
+#if __has_feature(address_sanitizer)
+#define VF_HAS_ASAN 1
+#endif
+#endif
+#ifdef VF_HAS_ASAN
+extern "C" void __asan_on_error()
+{
+    std::fprintf(stderr, "VF_CASE %llu\nVF_INPUT %s\n", (unsigned long long)vf::ctx().cur_case, vf::breadcrumb().c_str());
+}
+#endif
+
 #ifdef VF_FUZZ
 // libFuzzer entry points: the input bytes choose the case index and feed the harness' Rng; the monitors are
 // the same functions as in the seeded mode.  JSON lines go to stdout, the summary is printed at exit.
